@@ -45,14 +45,17 @@ def stub_flat_indices(ctx):
     return RaggedView2, old, calls
 
 
-def selection_spec(ctx, g, rk, ck):
-    """the property's reading of ra[rowslice, colslice]: selected source row of result row r', selected source column of its cell c'"""
+def selection_spec(ctx, g, rk, ck, nb=None, Lb=None):
+    """the property's reading of x[rowslice, colslice] for a receiver x with nb rows of lengths Lb(i) (default: the array itself):
+    selected receiver row of result row r', selected receiver column of its cell c'"""
+    nb = g.n if nb is None else nb
+    Lb = g.L if Lb is None else Lb
     rcomps = slice_components(ctx, rk, names=("ra", "rb", "rc"))
     cse, cstep = ck.split(":")
     ccomps = slice_components(ctx, cse + "N", names=("ca", "cb", "cc"))[:2] + [int(cstep) if int(cstep) != 1 else None]
-    fr, nr, sr = (I(x) for x in pyslice(SInt(g.n), *rcomps))
+    fr, nr, sr = (I(x) for x in pyslice(SInt(nb), *rcomps))
     src_row = lambda r_: fr + r_ * sr
-    col_parts = lambda r_: tuple(I(x) for x in pyslice(SInt(g.L(src_row(r_))), *ccomps))
+    col_parts = lambda r_: tuple(I(x) for x in pyslice(SInt(Lb(src_row(r_))), *ccomps))
     return slice(*rcomps), slice(*ccomps), nr, src_row, col_parts
 
 
@@ -75,19 +78,27 @@ class GetItemEndToEnd(Family):
         return ["IndexableArray._get_row_subset", "IndexableArray._get_row_col_subset", "RaggedShape.view_rows", "RaggedView2.col_slice", "RaggedView2._pos_col_slice",
                 "RaggedView2._calculate_lengths", "RaggedBase.ravel", "RaggedBase._flatten_myself"]
 
+    def receiver(self, ctx, g, kind):
+        return g.ra, {}
+
     def _chain(self, ctx, st, call, r, c, tag="post"):
         """the composition for result row r / cell c (skolem constants in `run`, the witness of a failing bounds check in `late_lemmas`)"""
         g, src_row, col_parts, nr = st["g"], st["src_row"], st["col_parts"], st["nr"]
-        n, S, L = g.n, g.S, g.L
+        nb = st.get("nb", g.n)
+        Lb = st.get("Lb", g.L)
+        addr = st.get("addr", lambda i, k: g.S(i) + k)            # flat address (in the source buffer) of cell k of receiver row i
+        factor = st.get("step_factor", 1)                          # column step of the receiver itself (a lazily column-sliced receiver)
+        extra = st.get("extra_pool", lambda i: [i, i + 1])
         osh = call["shape"]
         rho = src_row(r)
         fc, nc, sc = col_parts(r)
         kind_ = "post" if tag == "post" else "lemma"
-        ctx.prove_then_assume(f"{tag}.lemma: the selected source row exists", z3.Implies(z3.And(0 <= r, r < nr), z3.And(0 <= rho, rho < n)), pool=[r, rho, rho + 1, n], kind=kind_)
-        ctx.prove_then_assume(f"{tag}.row r' has len(row[colslice]) cells; the view addresses them from S(row) + first with the column step",
-                              z3.Implies(z3.And(0 <= r, r < nr), z3.And(osh.L(r) == nc, z3.Implies(nc > 0, call["starts"](r) == S(rho) + fc), call["step"] == sc)), pool=[r, rho, rho + 1], kind=kind_)
-        ctx.prove_then_assume(f"{tag}.lemma: the selected column exists in the source row",
-                              z3.Implies(z3.And(0 <= r, r < nr, 0 <= c, c < nc), z3.And(0 <= fc + c * sc, fc + c * sc < L(rho))), pool=[r, rho, rho + 1, c], kind=kind_)
+        ctx.prove_then_assume(f"{tag}.lemma: the selected receiver row exists", z3.Implies(z3.And(0 <= r, r < nr), z3.And(0 <= rho, rho < nb)), pool=[r, rho, rho + 1, nb], kind=kind_)
+        ctx.prove_then_assume(f"{tag}.row r' has len(row[colslice]) cells; the view addresses them from the row's first selected cell with the (compounded) column step",
+                              z3.Implies(z3.And(0 <= r, r < nr), z3.And(osh.L(r) == nc, z3.Implies(nc > 0, call["starts"](r) == addr(rho, fc)), call["step"] == sc * factor)),
+                              pool=[r, rho, rho + 1] + extra(rho), kind=kind_)
+        ctx.prove_then_assume(f"{tag}.lemma: the selected column exists in the receiver row",
+                              z3.Implies(z3.And(0 <= r, r < nr, 0 <= c, c < nc), z3.And(0 <= fc + c * sc, fc + c * sc < Lb(rho))), pool=[r, rho, rho + 1, c], kind=kind_)
         return rho, fc, nc, sc
 
     def late_lemmas(self, ctx, kind, exc):
@@ -105,19 +116,21 @@ class GetItemEndToEnd(Family):
         ctx.prove_then_assume("late.lemma: the flat position of the failing address lies in a row of the view", z3.And(0 <= r, r < st["nr"], 0 <= c, c < osh.L(r)), pool=[w, r, r + 1], kind="lemma")
         rho, fc, nc, sc = self._chain(ctx, st, call, r, c, tag="late")
         ctx.prove_then_assume("late.lemma: the index bounds check of the gather cannot fail", z3.BoolVal(False), kind="lemma",
-                              pool=[w, r, c, rho, rho + 1, g.n, z3.IntVal(0)])
+                              pool=[w, r, c, rho, rho + 1, g.n, z3.IntVal(0)] + st.get("extra_pool", lambda i: [])(rho))
 
     def run(self, ctx, kind):
-        rk, ck = kind.split("|")
+        rk, ck = kind.split("|")[-2:]
         g = sym_ragged(ctx)
         ctx.ghost["g"] = g
         n, S, L, D = g.n, g.S, g.L, g.D.fn
-        rs, cs, nr, src_row, col_parts = selection_spec(ctx, g, rk, ck)
+        recv, extra_st = self.receiver(ctx, g, kind)
+        rs, cs, nr, src_row, col_parts = selection_spec(ctx, g, rk, ck, extra_st.get("nb"), extra_st.get("Lb"))
         cls, old, calls = stub_flat_indices(ctx)
         st = {"g": g, "src_row": src_row, "col_parts": col_parts, "nr": nr, "calls": calls}
+        st.update(extra_st)
         ctx.ghost["st"] = st
         try:
-            out = g.ra[rs, cs]
+            out = recv[rs, cs]
             flat = out.ravel()
         finally:
             cls.get_flat_indices = old
@@ -133,15 +146,16 @@ class GetItemEndToEnd(Family):
         ctx.declare_inputs(c)
         rho, fc, nc, sc = self._chain(ctx, st, call, r, c)
         ctx.skolem(z3.And(0 <= c, c < nc))
+        addr = st.get("addr", lambda i, k: S(i) + k)
         ctx.prove("post.cell c' of row r' is cell colslice[c'] of source row rowslice[r']  (list indexing)",
-                  flat.get(osh.S(r) + c) == D(S(rho) + fc + c * sc), pool=[r, c, rho, rho + 1, n],
+                  flat.get(osh.S(r) + c) == D(addr(rho, fc + c * sc)), pool=[r, c, rho, rho + 1, n] + st.get("extra_pool", lambda i: [])(rho),
                   without=["flat.S.mono", "sh.S.mono"])
         ctx.prove("post.source not written, result in a fresh buffer", z3.BoolVal(g.D.buf.writes == 0 and flat.buf is not g.D.buf))
 
     def concretise(self, kind, model, ghost):
         g = ghost["g"]
         n = min(max(model_int(model, g.n), 0), 5)
-        rk, ck = kind.split("|")
+        rk, ck = kind.split("|")[-2:]
 
         def ms(k, names):
             out = []
@@ -269,3 +283,58 @@ class SetItemEndToEnd(GetItemEndToEnd):
                 exp[i][jx] = -5
         if ra.tolist() != exp:
             return {"msg": f"ra[{rs}, {cs}] = -5 on rows {rows}: {ra.tolist()}, list assignment gives {exp}", "sig": "wrong:e2e-setitem"}
+
+
+@register
+class LazyGetItemEndToEnd(GetItemEndToEnd):
+    """C06: the same end-to-end statement when the receiver is itself a lazy selection of an array (never materialised before):
+    x = ra[a::2] / ra[::-1] (rows) or x = ra[:, 1:] / ra[:, ::-1] (columns, a RaggedView2 whose column step compounds with the second one);
+    x[rowslice, colslice] equals list indexing of x's rows, and the source is not written."""
+    name = "x[rows, cols] end to end, x a lazy selection"
+    qualname = "npstructures.raggedarray.indexablearray:IndexableArray.__getitem__"
+    serves = ["C06"]
+    configs = ["int64"]
+    timeout_ms = 60000
+
+    def kinds(self):
+        return [f"{rv}|{r}|{c}" for rv in ("rows a::2", "rows ::-1", "cols 1:", "cols ::-1") for r in ("SSS", "NNN") for c in ("SS:1", "SS:-1", "NN:2")]
+
+    def receiver(self, ctx, g, kind):
+        rv = kind.split("|")[0]
+        n, S, L = g.n, g.S, g.L
+        if rv.startswith("rows"):
+            if rv == "rows a::2":
+                a = z3.Int("pa")
+                ctx.declare_inputs(a)
+                sel = slice(SInt(a), None, 2)
+                f, cnt, stp = (I(x) for x in pyslice(SInt(n), SInt(a), None, 2))
+            else:
+                sel = slice(None, None, -1)
+                f, cnt, stp = (I(x) for x in pyslice(SInt(n), None, None, -1))
+            row = lambda i: f + i * stp
+            return g.ra[sel], {"nb": cnt, "Lb": lambda i: L(row(i)), "addr": lambda i, k: S(row(i)) + k, "extra_pool": lambda i: [row(i), row(i) + 1]}
+        if rv == "cols 1:":
+            sel, parts = slice(1, None), (lambda i: tuple(I(x) for x in pyslice(SInt(L(i)), 1, None, None)))
+        else:
+            sel, parts = slice(None, None, -1), (lambda i: tuple(I(x) for x in pyslice(SInt(L(i)), None, None, -1)))
+        fac = 1 if rv == "cols 1:" else -1
+        return g.ra[:, sel], {"nb": n, "Lb": lambda i: parts(i)[1], "addr": lambda i, k: S(i) + parts(i)[0] + k * fac, "step_factor": fac}
+
+    def concrete(self, case):
+        from npstructures import RaggedArray
+        ls = case["lengths"]
+        rows, v = [], 10
+        for l in ls:
+            rows.append(list(range(v, v + l)))
+            v += l
+        rs, cs = slice(*case["rows"]), slice(*case["cols"])
+        for nm, mk, ml in (("ra[1::2]", lambda x: x[1::2], lambda x: x[1::2]), ("ra[::-1]", lambda x: x[::-1], lambda x: x[::-1]),
+                           ("ra[:, 1:]", lambda x: x[:, 1:], lambda x: [r[1:] for r in x]), ("ra[:, ::-1]", lambda x: x[:, ::-1], lambda x: [r[::-1] for r in x])):
+            ra = RaggedArray(np.arange(10, 10 + sum(ls)), ls)
+            try:
+                got = mk(ra)[rs, cs].tolist()
+            except Exception as e:
+                return {"msg": f"{nm}[{rs}, {cs}] on rows {rows} raised {type(e).__name__}: {e}", "sig": "raised:e2e-lazy-getitem"}
+            exp = [row[cs] for row in ml(rows)[rs]]
+            if got != exp:
+                return {"msg": f"{nm}[{rs}, {cs}] on rows {rows}: {got}, list indexing gives {exp}", "sig": "wrong:e2e-lazy-getitem"}
